@@ -877,6 +877,7 @@ package seccomp
 //@ lemma entryValidInst(sc []SyscallWithConditions, k int, x SyscallWithConditions)
 //@   ensures 0 <= k && k < len(sc) && x == sc[k] && entriesOK(sc) ==> argsValid(x) && (entriesListsNonEmpty(sc) ==> semValid(x))
 //@ func (g *SyscallGroup) Assemble(defaultAction Action) ([]bpf.Instruction, error)   properties C01 C05 C07
+//@   fresh C13
 //@   deterministic C13
 //@   frame_props C13
 //@   requires g != nil && g.arch != nil
@@ -885,6 +886,7 @@ package seccomp
 //@   ensures @closed {C05} result1 == nil ==> closed(result0)
 
 //@ func (g *SyscallGroup) assemble(defaultAction Action, fallThrough bool) ([]bpf.Instruction, error)   properties C01 C03 C04 C05 C07
+//@   fresh C13
 //@   deterministic C13
 //@   frame_props C13
 //@   requires g != nil && g.arch != nil
@@ -982,6 +984,7 @@ package seccomp
 //@   ensures insnStrictOK(R, j) ==> insnOK(R, j)
 
 //@ func (p *Policy) Assemble() ([]bpf.Instruction, error)   properties C01 C03 C04 C05 C07 C13
+//@   fresh C13
 //@   deterministic C13
 //@   frame_props C13
 //@   opaque groupValidN polDone polRel groupMatchesN closed strictClosed subBlock retsActUpTo run infoInj retsPolicy
@@ -1273,6 +1276,8 @@ package seccomp
 //@   loop 1 binder k match range filterFlags
 //@     invariant @own own(list)
 //@ func (f FilterFlag) MarshalText() ([]byte, error)   properties C13
+//@   fresh C13
 //@   deterministic C13
 //@ func (a Action) MarshalText() ([]byte, error)   properties C13 C14
+//@   fresh C13
 //@   deterministic C13
